@@ -131,6 +131,10 @@ var c17Fragments = []string{
 	"{% if v is st1 %}t{% endif %}", "{% if (v|sf1) is defined %}d{% endif %}", "{% if sg1(m).k is defined %}d{% endif %}", "{% if v is not st1 %}t{% endif %}",
 	"{{ sg1(1) + sg2(2) }}", "{{ -sg1(1) }}", "{{ xs[sg1(0)] }}", "{{ sg1(m).k }}", "{{ sg1(1) and sg2(1) }}", "{{ sg1(0) or sg2(1) }}", "{{ v ~ sg1('x') }}", "{{ sg1(1) in xs }}", "{{ zz|default(sg1(4)) }}", "{{ v|sf1(sg2(1)) }}",
 	"{% do sg1(9) %}", "{{ sg1(sg2(sg1(1))) }}", "{{ not sg1(0) }}", "{{ (sg1(2) > 1) ? 'y' : 'n' }}",
+	// a failing operand under every kind of built-in filter (tolerant ones like default must not swallow it)
+	"{{ sg1(v)|default('d') }}", "{{ sg1(m).k|default('d') }}", "{{ (v|sf1)|default('d') }}", "{{ sg1(zz)|default('d')|sf2 }}", "{{ sg2(v)|upper }}", "{{ sg1(xs)|length }}", "{{ sg1(xs)|first }}", "{{ sg1(xs)|join(',') }}",
+	"{{ sg1(v)|e }}", "{{ sg1(v)|raw }}", "{{ sg1(m)|keys|join }}", "{{ sg1(xs)|slice(0, 1)|join }}", "{{ sg1(xs)|merge([1])|length }}", "{{ sg1(m)|json_encode }}", "{{ sg1(v)|trim|sf1 }}", "{{ sg1(xs)|sort|reverse|join }}",
+	"{% for i in sg1(xs)|default([]) %}{{ i }}{% endfor %}", "{% if sg1(zz)|default(false) %}t{% endif %}", "{% set q = sg1(zz)|default('d') %}{{ q }}", "{{ sg1(zz) is defined ? 'y' : 'n' }}", "{{ sg1(zz) is empty ? 'y' : 'n' }}", "{{ sg1(zz) is null ? 'y' : 'n' }}",
 }
 
 func (p *c17) build(r *core.Rand) (map[string]string, string) {
